@@ -537,6 +537,11 @@ pub fn build(ep: Endpoint, base: &Value, m: &HttpMut) -> Built {
                         if new == cur {
                             new = cur + 1;
                         }
+                        // (a malformed 32-byte user id grown to 33 bytes may happen to be a valid key, i.e. a valid request)
+                        let right_size = if ep == Endpoint::Register { 33 } else { 16 };
+                        if new == right_size {
+                            new += 1;
+                        }
                         let mut t = s.clone();
                         t.truncate(new * 2);
                         while t.len() < new * 2 {
